@@ -10,6 +10,8 @@
     list/watch requests, handler invocations and daemon instances are validated by TLC against Trace_Peering.tla: the
     behaviour must be one of Peering.tla (contents and instants of every write, the dead/higher/same split of every
     evaluation), with the invariants true in every state and the C13/C19 pause clauses on every step.
+(D) schedules of starts / graceful exits / kills drawn by TLC itself (`-simulate` on Sim_Peering.tla, a paced MC_Peering) are
+    replayed into the real operators and validated like (B): the specification chooses the behaviour, the code must follow.
 (C) one real operator serving several namespaces with a namespaced peering in each; foreign records block and free single
     peerings, namespaces disappear and come back; PauseSet.tla (a property automaton in TLC) requires at every rest point
     that the operator's streams are open iff no peering that is still served reports a conflict.
@@ -43,7 +45,10 @@ def run(ctx, rep) -> None:
         if r.ok or ('invariant', inv) not in r.violated:
             raise MachineryFailure(f'negative configuration MC_Peering_{c} did not violate {inv}: {r.violated}')
     rep.extra['negative_configs'] = {c: f'{inv} violated, as required' for c, inv in NEGATIVES.items()}
-    scs = P.crafted() + P.gen_scenarios(ctx.seed, 150 if ctx.quick else 3000)
+    # (D) schedules drawn by TLC itself (-simulate on Sim_Peering) are replayed into the real operators, too
+    tlcs = P.tlc_scenarios(ctx.seed + 1, 40 if ctx.quick else 600)
+    rep.extra['tlc_generated_schedules'] = len(tlcs)
+    scs = P.crafted() + tlcs + P.gen_scenarios(ctx.seed, 150 if ctx.quick else 3000)
     with ProcessPoolExecutor(16) as ex:
         traces = list(ex.map(P.run_scenario, scs, chunksize=2))
     verdicts = {}
